@@ -100,6 +100,29 @@ theorem never_hides_gff (qs qe fs fe : Int) (S : RangeSet)
   all_goals (repeat' split)
   all_goals omega
 
+/-- T2b (bed): the whole set returned for `one=False` is, for every pair of ints, bin 1 plus at every level
+    the windows from the start's to the stop's (stop clamped to the binned range); `{1}` for invalid input. -/
+theorem bins_all_bed (qs qe : Int) : bins qs qe .bed false = .ok (.many (rawBinSet qs qe 0)) := by
+  unfold bins rawBinSet
+  simp only [Bool.false_eq_true, if_false]
+  repeat' split
+  all_goals first
+    | rfl
+    | (exfalso; omega)
+    | (simp only [Except.ok.injEq, BinsResult.many.injEq, List.cons_append, List.nil_append, List.cons.injEq,
+        Prod.mk.injEq, and_true, true_and]; omega)
+
+/-- T2b (gff) -/
+theorem bins_all_gff (qs qe : Int) : bins qs qe .gff false = .ok (.many (rawBinSet qs qe 1)) := by
+  unfold bins rawBinSet
+  simp only [Bool.false_eq_true, if_false]
+  repeat' split
+  all_goals first
+    | rfl
+    | (exfalso; omega)
+    | (simp only [Except.ok.injEq, BinsResult.many.injEq, List.cons_append, List.nil_append, List.cons.injEq,
+        Prod.mk.injEq, and_true, true_and]; omega)
+
 /-- `one=False` always yields a set (so the hypothesis `hS` above is satisfiable for every query). -/
 theorem bins_all_is_set (qs qe : Int) (fmt : CoordFmt) : ∃ S, bins qs qe fmt false = .ok (.many S) := by
   unfold bins
